@@ -65,12 +65,14 @@ class Checker:
         self.Dec = NMEA2000Decoder
         self.base = NMEA2000Decoder()
         self.cache = {}
+        self.seqs = {}
 
     def decoder(self, prefs):
         k = tuple(sorted(prefs.items()))
         if k not in self.cache:
             if len(self.cache) > 200:
                 self.cache.clear()
+                self.seqs.clear()
             self.cache[k] = self.Dec(preferred_units={getattr(self.PQ, q): u for q, u in prefs.items()})
         return self.cache[k]
 
@@ -89,12 +91,16 @@ class Checker:
         ctx = self.ctx
         case = {"definition": d.key, "payload_hex": payload.to_bytes(nbytes, "little").hex(), "preferences": prefs, "via": via}
         self.seq = (getattr(self, "seq", 0) + 1) % 8
+        # a per-decoder sequence counter that always differs from the previous message fed to that decoder
+        base, withp = self.base, self.decoder(prefs)
+        sa = self.seqs[id(base)] = (self.seqs.get(id(base), 0) + 1) % 8
+        sb = self.seqs[id(withp)] = (self.seqs.get(id(withp), 0) + 1) % 8
         try:
-            a = self._deliver(self.base, d, payload, nbytes, via, self.seq)
+            a = self._deliver(base, d, payload, nbytes, via, sa)
         except Exception:
             a = None
         try:
-            b = self._deliver(self.decoder(prefs), d, payload, nbytes, via, self.seq)
+            b = self._deliver(withp, d, payload, nbytes, via, sb)
             berr = None
         except Exception as e:
             b, berr = None, e
@@ -195,8 +201,39 @@ def _work(ctx: Ctx, item):
             ctx.sample({"definition": key, "quantity_fields": [(f.id, f.pq, f.unit) for f in d.fields if f.pq][:6]})
 
 
+def _siblings(ctx: Ctx, item):
+    """One decoder (with preferences) sees a sibling definition of the same PGN first: every ordered pair of definitions of every
+    multi-definition PGN in which the second has a convertible field."""
+    pgns, = item
+    db = canboat.db()
+    for pgn in pgns:
+        ds = [d for d in db.by_pgn[pgn] if d.supported]
+        for d2 in ds:
+            if not any(f.pq in RECOGNISED for f in d2.fields):
+                continue
+            for d1 in ds:
+                if d1 is d2:
+                    continue
+                for prefs in FULL:
+                    ck = Checker(ctx)          # fresh decoders per pair: the only history is d1
+                    p1, n1, _ = gen.benign_payload(d1)
+                    ck.check(d1, p1, n1, prefs)
+                    if d1.fast:
+                        ck.check(d1, p1, n1, prefs, via="frames")
+                    p2, n2, _ = gen.benign_payload(d2)
+                    for via in (("combined", "frames") if d2.fast and n2 <= 223 else ("combined",)):
+                        ctx.count()
+                        ctx.nt((d1.key, d2.key, via, tuple(sorted(prefs.items()))))
+                        res, _ = ck.check(d2, p2, n2, prefs, via=via)
+                        for b, w, c in res:
+                            ctx.report(b + "|after-sibling", f"after decoding {d1.key}: {w}", dict(c, first=d1.key))
+    ctx.klass("sibling_pairs")
+
+
 def run(ctx: Ctx):
     db = canboat.db()
+    multi = [pgn for pgn, ds in db.by_pgn.items() if len(ds) > 1 and any(f.pq in RECOGNISED for d in ds for f in d.fields)]
+    pmap(ctx, _siblings, [([p],) for p in multi])
     keys = [d.key for d in db.defs if d.supported and any(f.pq for f in d.fields)]
     n = 40 if ctx.quick else 800
     shards = [keys[i::32] for i in range(32)]
@@ -210,5 +247,13 @@ def replay(ctx: Ctx, case):
     ck = Checker(ctx)
     d = canboat.db().by_key[case["definition"]]
     data = bytes.fromhex(case["payload_hex"])
+    if case.get("first"):
+        d1 = canboat.db().by_key[case["first"]]
+        p1, n1, _ = gen.benign_payload(d1)
+        ck.check(d1, p1, n1, case["preferences"])
+        if d1.fast:
+            ck.check(d1, p1, n1, case["preferences"], via="frames")
     res, _ = ck.check(d, int.from_bytes(data, "little"), len(data), case["preferences"], case.get("via", "combined"))
-    return [(b + "|frames", w, c) for b, w, c in res] if case.get("via") == "frames" else res
+    if case.get("first"):
+        res = [(b + "|after-sibling", w, c) for b, w, c in res]
+    return [(b + "|frames", w, c) for b, w, c in res] if case.get("via") == "frames" and not case.get("first") else res
